@@ -100,7 +100,7 @@ def check_case(ctx, case, routes=ROUTES, reverse=False):
     mode = case.get("mode", "tree")
     names = sorted(S.variables(s))
     ctx.count("cases")
-    e = S.build(s, mode)            # one long-lived expression object; route objects are built once on it
+    e, parts = C.build_with_parts(s, mode)   # one long-lived expression object; route objects are built once on it
     robjs = {}
     history = []                    # (route object key, point, first outcome)
     pts = [S.point_from_json(pj) for pj in case["points"]]
@@ -154,7 +154,8 @@ def check_case(ctx, case, routes=ROUTES, reverse=False):
     # the same long-lived objects asked again, with an evaluation of the shared expression at another point in between
     for i, (key, pp, out) in enumerate(reversed(history[-24:])):
         if len(pts) > 1:
-            M.call(e.at, S.make_point(pts[i % len(pts)]))
+            tgt = parts[(i * 5) % len(parts)] if (parts and i % 2 == 1) else e
+            M.call(tgt.at, S.make_point(pts[i % len(pts)]))
         again = robjs[key].query(pp)
         ctx.count("revisits")
         if again.numbits() != out.numbits():
